@@ -334,8 +334,49 @@ impl Prop for Mutated {
     const BYTES: usize = 320;
     fn gen(u: &mut Unstructured<'_>) -> arbitrary::Result<Case> {
         const HOSTILE: &[&str] = &["0", "1", "9", "-", "+", ":", ".", "a", "Z", "T", "'", "''", "é", "日", "😀", " ", "\u{0}", "\t", "\u{a0}", "/", "*", ","];
-        let family = u.int_in_range(0..=10u8)?;
+        let family = u.int_in_range(0..=11u8)?;
         let (api, mut pattern, mut input): (u8, String, String) = match family {
+            11 => {
+                // several sub-second fields of different widths in one pattern (the parser adds them
+                // up): digits at their maximum, at the last second of the day and elsewhere
+                let dt = u.ratio(1, 2)?;
+                let mut pattern = String::from(if dt { "yyyy-MM-dd HH:mm:ss" } else { "HH:mm:ss" });
+                let mut input = String::from(if dt { *u.choose(&["2022-05-02 ", "-0001-12-31 ", "5879611-07-12 ", "0001-01-01 "])? } else { "" });
+                input.push_str(*u.choose(&["23:59:59", "23:59:59", "12:00:00", "00:00:00", "11:59:59"])?);
+                let mut widths: Vec<usize> = vec![1, 2, 3, 4, 5];
+                let keep = u.int_in_range(2..=5usize)?;
+                while widths.len() > keep {
+                    let i = u.int_in_range(0..=widths.len() - 1)?;
+                    widths.remove(i);
+                }
+                if u.ratio(1, 2)? {
+                    widths.reverse();
+                }
+                for w in widths {
+                    pattern.push(' ');
+                    pattern.push_str(&"n".repeat(w));
+                    let digits = [1usize, 2, 3, 6, 9][w - 1];
+                    input.push(' ');
+                    match u.int_in_range(0..=3u8)? {
+                        0 => input.push_str(&"9".repeat(digits)),
+                        1 => {
+                            input.push('9');
+                            input.push_str(&"0".repeat(digits - 1));
+                        }
+                        2 => input.push_str(&"5".repeat(digits)),
+                        _ => {
+                            for _ in 0..digits {
+                                input.push(char::from(b'0' + u.int_in_range(0..=9u8)?));
+                            }
+                        }
+                    }
+                }
+                if u.ratio(1, 4)? {
+                    pattern.push_str(" xxx");
+                    input.push_str(*u.choose(&[" +00:00", " -05:30", " +23:59"])?);
+                }
+                (if dt { 2 } else { 1 }, pattern, input)
+            }
             10 => {
                 // long fields: one symbol repeated up to 40 times (optionally two fields), filled with
                 // a mix of digits and 1-4 byte characters, so that a single field spans 16/32/64/128
@@ -408,7 +449,7 @@ impl Prop for Mutated {
             }
         };
         // 0..=3 random edits
-        let edits = if family == 7 { 0 } else if family == 10 { u.int_in_range(0..=1u8)? } else { u.int_in_range(0..=3u8)? };
+        let edits = if family == 7 { 0 } else if family == 10 || family == 11 { u.int_in_range(0..=1u8)? } else { u.int_in_range(0..=3u8)? };
         for _ in 0..edits {
             let target_pattern = !pattern.is_empty() && u.ratio(1, 3)?;
             let s: &mut String = if target_pattern { &mut pattern } else { &mut input };
